@@ -208,7 +208,7 @@ def exec_S(source):
         'digest': h.hexdigest(),
         'events': sim.events if os.environ.get('VERIF_KEEP_EVENTS') else None,
         'steps': sim.total_steps,
-        'sim_seconds': C.now - t0,
+        'sim_seconds': C.travel,
         'sched_keys': sorted(sim.sched_keys),
         'point_lines': sorted(sim.point_lines),
         'funcs_by_name': dict((k, sorted(v)) for k, v in sim.funcs_by_name.items()),
